@@ -7,53 +7,64 @@ open HedVerif HedVerif.Driver HedVerif.Events
 /-- ASCII case folding (the harness generates ASCII names only; Python `casefold` = `lower` there) -/
 def foldAscii (s : Events.Str) : Events.Str := s.map Char.toLower
 
-def itemOf (j : Json) : Except String Item := do
-  let a ← asArr j
-  match a with
-  | [Json.str "onset", Json.str n, c] => pure (.onset n.toList (← asNat c))
-  | [Json.str "offset", Json.str n] => pure (.offset n.toList)
-  | [Json.str "duration", l, c] =>
-    match l.getInt? with
-    | .ok len => pure (.duration len (← asNat c))
-    | .error _ => .error "duration length must be int"
-  | [Json.str "plain", c] => pure (.plain (← asNat c))
-  | _ => .error "bad item"
+def strs (xs : List Events.Str) : Json := jarr (xs.map jstr)
 
-def rowOf (j : Json) : Except String Row := do
-  let t ← getInt j "time"
-  let items ← (← getArr j "items").mapM itemOf
-  let ds ← (← getArr j "delayed").mapM fun d => do
-    let a ← asArr d
-    match a with
-    | [dt, it] => match dt.getInt? with
-      | .ok n => pure (n, ← itemOf it)
-      | .error _ => .error "delay must be int"
-    | _ => .error "delayed entry must be [delay, item]"
-  pure ⟨t, items, ds⟩
+def rejectName : Reject → String
+  | .unordered => "unordered"
+  | .unmatchedOffset => "unmatchedOffset"
+  | .noDef => "noDef"
+  | .badValue => "badValue"
 
-def nats (xs : List Nat) : Json := jarr (xs.map jnat)
+structure Variant where
+  types : List Events.Str
+  ctx : Bool
+  replace : Bool
 
-/-- requests `{"op":"c20.build","rows":[{"time":t,"items":[…],"delayed":[[d,item],…]},…]}` -/
+def variantOf (j : Json) : Except String Variant := do
+  let ts ← (← getArr j "types").mapM asStr
+  pure ⟨ts, ← getBool j "ctx", ← getBool j "replace"⟩
+
+/-- request `{"op":"c20.text","rows":[{"time":t,"hed":"…"}],"vals":[[tag text,int]],"defs":[[name,"contents"]],
+"variants":[{"types":[…],"ctx":bool,"replace":bool}]}` — the whole pipeline on the text of the file -/
 def handle (op : String) (j : Json) : Option (Except String Json) :=
   match op with
-  | "c20.build" => some do
-      let rows ← (← getArr j "rows").mapM rowOf
-      match build foldAscii rows with
-      | .error .unordered => pure <| jobj [("ok", jbool false), ("reject", Json.str "unordered")]
-      | .error .unmatchedOffset => pure <| jobj [("ok", jbool false), ("reject", Json.str "unmatchedOffset")]
+  | "c20.text" => some do
+      let rows ← (← getArr j "rows").mapM fun r => do
+        pure (⟨← getInt r "time", parse (← getStr r "hed")⟩ : TextRow)
+      let valTbl ← (← getArr j "vals").mapM fun v => do
+        match ← asArr v with
+        | [Json.str t, n] => match n.getInt? with
+          | .ok i => pure (t.toList, i)
+          | .error _ => .error "value must be int"
+        | _ => .error "vals entry must be [text, int]"
+      let defs ← (← getArr j "defs").mapM fun d => do
+        match ← asArr d with
+        | [Json.str n, Json.str c] => pure (n.toList, parse c.toList)
+        | _ => .error "defs entry must be [name, contents]"
+      let variants ← (← getArr j "variants").mapM variantOf
+      let vals : Events.Str → Option Int := fun t => (valTbl.find? fun e => e.1 == t).map (·.2)
+      match buildText foldAscii vals rows with
+      | .error e => pure <| jobj [("ok", jbool false), ("reject", Json.str (rejectName e))]
       | .ok b =>
+        let tbl := table rows
         let n := b.ts.length
-        let sp := specProcs foldAscii b.ts (timed (history rows))
+        let idx := List.range n
+        let rs := (toRows vals 0 rows).toOption.getD []
+        let sp := specProcs foldAscii b.ts (timed (history rs))
+        let txt := fun (c : Nat) => render (contentOf tbl c)
         pure <| jobj [
           ("ok", jbool true),
           ("onsets", jarr (b.ts.map jint)),
-          ("procs", jarr (b.procs.map fun p => jarr [jnat p.start, jopt jnat p.stop, jnat p.content])),
-          ("base", jarr (base b |>.map nats)),
-          ("contexts", jarr ((List.range n).map fun i =>
-              jarr ((b.procs.filter (inContext i)).map fun p => jarr [jnat p.content, jnat p.start]))),
-          ("remainder", jarr (b.rem.map nats)),
-          ("spec", jarr (b.ts.map fun τ => jarr [nats (specContext sp τ), nats (specContextIncl sp τ),
-                                                 nats (specStarts sp τ)]))]
+          ("procs", jarr (b.procs.map fun p => jarr [jnat p.start, jopt jnat p.stop, jstr (txt p.content)])),
+          ("base", jarr (idx.map fun i => strs ((baseNodes tbl b i).map render))),
+          ("contexts", jarr (idx.map fun i =>
+              jarr ((b.procs.filter (inContext i)).map fun p => jarr [jstr (txt p.content), jnat p.start]))),
+          ("hed", jarr (idx.map fun i => strs ((remNodes tbl b i).map render))),
+          ("objs", jarr (variants.map fun v => jarr (idx.map fun i =>
+              strs ((objNodes defs v.types v.ctx v.replace tbl b i).map render)))),
+          ("typedefs", jarr (variants.map fun v => strs (typeDefNames defs v.types))),
+          ("spec", jarr (b.ts.map fun τ => jarr [strs ((specContext sp τ).map txt),
+              strs ((specContextIncl sp τ).map txt), strs ((specStarts sp τ).map txt)]))]
   | _ => none
 
 end HedVerif.Driver.C20
